@@ -4,6 +4,7 @@
 #include <bee2/core/mt.h>
 #include <bee2/core/rng.h>
 #include <bee2/core/err.h>
+#include <bee2/core/util.h>
 #include "c18.h"
 
 c18_prog_t c18_prog;
@@ -35,6 +36,10 @@ static err_t tape_read(size_t* read, void* buf, size_t count, void* file)
 
 static int seq_pos;
 
+/* exit-time destructor registered by op 'E' (util.c keeps the list that rngInit() also appends rngDestroy to) */
+static size_t g_exit_calls;
+static void exit_fn(void) { mtAtomicIncr(&g_exit_calls); }
+
 static void do_op(int tid, int k)
 {
 	c18_op_t* op = &c18_prog.ops[tid][k];
@@ -52,6 +57,7 @@ static void do_op(int tid, int k)
 	case 'X': rngClose(); break;
 	case 'I': r = mtAtomicIncr(&g_ctr); break;
 	case 'D': r = mtAtomicDecr(&g_ctr); break;
+	case 'E': r = utilOnExit(exit_fn) ? 1 : 0; break;
 	case 'W': r = mtAtomicCmpSwap(&g_ctr, (size_t)op->arg, (size_t)op->arg + 100); break;
 	}
 	c18_obs.ret[tid][k] = r;
